@@ -170,6 +170,8 @@ class Stack:
             mv = miss(op, nr)
             if type(val) is type(mv) and val == mv:
                 shape = "miss"
+            if isinstance(val, dict):
+                val["__caller_wrote_this__"] = 1      # read-through callers fill the dict they got: it must not be shared
         self.events.append({"e": "ret", "c": c, "pend": self.net.boundary(), "used": self.used(), "shape": shape})
         self.results.append(("ret", val))
         return "ret", val
